@@ -519,3 +519,218 @@ func ruleC06QueryCut(c *Checker) {
 	}
 	c.check(n > 0, R, "-", "printer that cuts at \"?\"", "-", fmt.Sprintf("%d site(s)", n), "no printer looks for the query string any more: a sub-path would be printed after the query")
 }
+
+// ruleFetchMemoOnly — whether a package is present decides only whether it is
+// fetched again, never whether a source is analysed.
+func ruleFetchMemoOnly(id string) func(*Checker) {
+	return func(c *Checker) {
+		c.rule(id, "In the Builder the table of fetched packages (remotePackageDirs) is read only by the function that calls the fetcher (the fetch memo). Whether a source still needs work is decided on the analysed set, whose key is (source address, finder): a package being in the bundle says nothing about another sub-path of it, another finder, or a registry source that resolves into it — an early return or `continue` taken because 'the package is already there' drops that source and its dependencies silently, and which one is dropped depends on the order of the Add calls.", 1)
+		p := c.P
+		n := 0
+		for _, fn := range p.Funcs {
+			if !inBundlePkg(p, fn) {
+				continue
+			}
+			eachInstr(fn, func(in ssa.Instruction) {
+				lk, ok := in.(*ssa.Lookup)
+				if !ok {
+					return
+				}
+				ld, ok := lk.X.(*ssa.UnOp)
+				if !ok || ld.Op != token.MUL {
+					return
+				}
+				fa, ok := ld.X.(*ssa.FieldAddr)
+				if !ok || fieldOf(fa) == nil || fieldOf(fa).Name() != "remotePackageDirs" || !isNamedT(derefType(fa.X.Type()), "Builder") {
+					return
+				}
+				n++
+				outer := p.Outer(fn)
+				fetches := false
+				own := []*ssa.Function{outer}
+				for i := 0; i < len(own); i++ {
+					own = append(own, own[i].AnonFuncs...)
+				}
+				for _, f := range own {
+					for _, ci := range callsIn(f) {
+						if ci.Common().IsInvoke() && ci.Common().Method.Name() == "FetchSourcePackage" {
+							fetches = true
+						}
+					}
+				}
+				c.check(fetches, id, p.FuncName(fn), "fetched-packages table read by the fetch memo only", p.Pos(lk.Pos()), "in the function that calls FetchSourcePackage", "the table of fetched packages is consulted outside the fetch memo: a decision about a source (queue it? analyse it?) is taken on whether its package is present")
+			})
+		}
+		c.check(n > 0, id, "-", "fetch memo present", "-", fmt.Sprintf("%d lookup(s)", n), "no function looks a package up in the table of fetched packages any more: every mention of a package fetches it again")
+	}
+}
+
+// ruleGlobalAddrNotShared — the address of a package-level variable is not handed to code that may write through it.
+func ruleGlobalAddrNotShared(id string) func(*Checker) {
+	return func(c *Checker) {
+		c.rule(id, "Outside package initialisation, nothing reachable from Pack, Unpack or the ignore-rule code takes the address of a package-level variable of a struct or array type and calls a method on it or hands it to a function (`scan := &patternScanner; scan.Init(…)`): scratch state kept in a package-level variable 'to save an allocation' is shared by every call in the process, and two Pack calls running at the same time interleave on it.", 1)
+		p := c.P
+		entries := packSideEntries(p)
+		n := 0
+		for _, fn := range sortedFuncs(p.reach(entries...)) {
+			if !p.InModule(fn) || isInitFunc(fn) {
+				continue
+			}
+			for _, ci := range callsIn(fn) {
+				for _, a := range ci.Common().Args {
+					g, ok := a.(*ssa.Global)
+					if !ok || g.Pkg == nil || !strings.HasPrefix(g.Pkg.Pkg.Path(), p.ModPath) {
+						continue
+					}
+					el := g.Type().(*types.Pointer).Elem()
+					switch el.Underlying().(type) {
+					case *types.Struct, *types.Array:
+					default:
+						continue
+					}
+					n++
+					c.fail(id, p.FuncName(fn), "address of package variable "+g.Name()+" handed to a call", p.Pos(ci.Pos()), "the address of the package-level variable "+g.Name()+" is the receiver or an argument of "+shortCallee(fullName(calleeObj(ci)))+": the callee can write through it, and that state is shared by every Pack/Unpack in the process, including ones running at the same time")
+				}
+			}
+		}
+		c.pass(id, "-", "calls inspected", "-", fmt.Sprintf("%d call(s) take the address of a package-level struct or array", n))
+	}
+}
+
+// ruleDeprecationKeptWhole — a registry's deprecation note is recorded for being there, not for what is in it.
+func ruleDeprecationKeptWhole(id string) func(*Checker) {
+	return func(c *Checker) {
+		c.rule(id, "Where the builder records the deprecation note of a selected version (the store into packageVersionDeprecations), the store is conditioned on the note being present (not nil) and on nothing inside the note: a test of one of its fields (`note.Reason != \"\"`) drops every note that has only the other fields — a link-only note — although the registry attached it to that version.", 1)
+		p := c.P
+		n := 0
+		for _, fn := range p.Funcs {
+			if !inBundlePkg(p, fn) {
+				continue
+			}
+			eachInstr(fn, func(in ssa.Instruction) {
+				mu, ok := in.(*ssa.MapUpdate)
+				if !ok {
+					return
+				}
+				ld, ok := mu.Map.(*ssa.UnOp)
+				if !ok || ld.Op != token.MUL {
+					return
+				}
+				fa, ok := ld.X.(*ssa.FieldAddr)
+				if !ok || fieldOf(fa) == nil || !strings.Contains(fieldOf(fa).Name(), "eprecation") {
+					return
+				}
+				if _, isPtr := mu.Value.Type().Underlying().(*types.Pointer); !isPtr {
+					return
+				}
+				n++
+				val := canon(mu.Value)
+				// what the recorded note is made of
+				bases := map[ssa.Value]bool{mu.Value: true, val: true}
+				for w := range p.backSlice(mu.Value, 0) {
+					if f2, ok := w.(*ssa.FieldAddr); ok {
+						if _, isAl := f2.X.(*ssa.Alloc); !isAl && strings.Contains(f2.X.Type().String(), "eprecation") {
+							bases[f2.X] = true
+							bases[canon(f2.X)] = true
+						}
+					}
+				}
+				bad := ""
+				for _, b := range fn.Blocks {
+					ifi, ok := b.Instrs[len(b.Instrs)-1].(*ssa.If)
+					if !ok || b.Succs[0] == b.Succs[1] {
+						continue
+					}
+					onField := false
+					for w := range p.backSlice(ifi.Cond, 0) {
+						if f2, ok := w.(*ssa.FieldAddr); ok && (bases[f2.X] || bases[canon(f2.X)]) {
+							onField = true
+						}
+					}
+					if !onField {
+						continue
+					}
+					if guarded(mu.Block(), []Edge{{b, 0}}) || guarded(mu.Block(), []Edge{{b, 1}}) {
+						bad = p.Pos(ifi.Cond.Pos())
+					}
+				}
+				c.check(bad == "", id, p.FuncName(fn), "note recorded whenever there is one", p.Pos(mu.Pos()), "conditioned on the note's presence only", "the note is recorded only if a test of one of its fields at "+bad+" turns out one way: a note that does not satisfy it (empty reason, link only) is dropped, and the bundle says the version is not deprecated")
+			})
+		}
+		c.check(n > 0, id, "-", "deprecation store found", "-", fmt.Sprintf("%d store(s)", n), "no store into the deprecation table found: notes are never recorded")
+	}
+}
+
+// ruleCutFoundNotRefused — a bundle-relative path of one segment is a package directory.
+func ruleCutFoundNotRefused(id string) func(*Checker) {
+	return func(c *Checker) {
+		c.rule(id, "In the reverse lookup, the \"found\" result of cutting the bundle-relative path at its first \"/\" does not decide a refusal: a path of a single segment is a package directory itself — what LocalPathForRemoteSource hands out for an address without a sub-path — and translates back to that package's root address.", 0)
+		p := c.P
+		fn := p.Fn("sourcebundle", "Bundle.SourceForLocalPath")
+		if fn == nil {
+			c.anchorMissing(id, "(*Bundle).SourceForLocalPath")
+			return
+		}
+		n := 0
+		for _, f := range sortedFuncs(p.family(fn)) {
+			// the index form: i := strings.IndexByte(p, '/'); if i < 0 { refuse }
+			for _, ci := range callsTo(f, func(o *types.Func) bool {
+				return isFunc(o, "strings", "Index") || isFunc(o, "strings", "IndexByte") || isFunc(o, "strings", "IndexRune")
+			}) {
+				cl, ok := ci.(*ssa.Call)
+				if !ok {
+					continue
+				}
+				if k, isC := constString(cl.Call.Args[1]); isC && k != "/" {
+					continue
+				}
+				if k, isC := constInt(cl.Call.Args[1]); isC && k != '/' {
+					continue
+				}
+				n++
+				refuses := false
+				for _, b := range f.Blocks {
+					ifi, ok := b.Instrs[len(b.Instrs)-1].(*ssa.If)
+					if !ok {
+						continue
+					}
+					cnd, _ := stripNot(ifi.Cond)
+					bo, ok := cnd.(*ssa.BinOp)
+					if !ok || (bo.X != ssa.Value(cl) && bo.Y != ssa.Value(cl)) {
+						continue
+					}
+					for i := 0; i < 2; i++ {
+						if rej, _ := returnsNonNilErrorFrom(b.Succs[i]); rej {
+							refuses = true
+						}
+					}
+				}
+				c.check(!refuses, id, p.FuncName(f), "index of the first \"/\" not a reason to refuse", p.Pos(cl.Pos()), "no error return hangs on whether a \"/\" was found", "a path without a \"/\" after the package directory name is refused: that is the package directory itself, the local path of every address without a sub-path")
+			}
+			for _, ci := range callsTo(f, func(o *types.Func) bool { return isFunc(o, "strings", "Cut") }) {
+				cl, ok := ci.(*ssa.Call)
+				if !ok {
+					continue
+				}
+				if k, isC := constString(cl.Call.Args[1]); !isC || k != "/" {
+					continue
+				}
+				n++
+				found := extractOf2(cl, 2)
+				if found == nil {
+					c.pass(id, p.FuncName(f), "cut result 'found' not a reason to refuse", p.Pos(cl.Pos()), "the found flag is not used")
+					continue
+				}
+				tE, fE := boolEdges(f, found)
+				refuses := false
+				for _, e := range append(tE, fE...) {
+					if rej, _ := returnsNonNilErrorFrom(e.To()); rej {
+						refuses = true
+					}
+				}
+				c.check(!refuses, id, p.FuncName(f), "cut result 'found' not a reason to refuse", p.Pos(cl.Pos()), "no error return hangs on the found flag", "a path without a \"/\" after the package directory name is refused: that is the package directory itself, the local path of every address without a sub-path, which no longer translates back")
+			}
+		}
+		_ = n
+	}
+}
